@@ -89,8 +89,8 @@ fn variants(family: &str, pn: u32) -> Vec<(&'static str, &'static str)> {
 fn variants_all(family: &str) -> Vec<(&'static str, &'static str)> {
     match family {
         "key" => vec![("tree", "u64"), ("list", "u64")],
-        "map" => vec![("tree", "u64"), ("tree", "string"), ("list", "u64"), ("list", "string")],
-        "set" => vec![("tree", "u64"), ("tree", "string"), ("tree", "bare"), ("list", "u64"), ("list", "string")],
+        "map" => vec![("tree", "u64"), ("tree", "string"), ("list", "u64"), ("list", "string"), ("tree", "wide"), ("list", "wide")],
+        "set" => vec![("tree", "u64"), ("tree", "string"), ("tree", "bare"), ("list", "u64"), ("list", "string"), ("tree", "wide"), ("list", "wide")],
         _ => vec![("tree", "u64")],
     }
 }
